@@ -14,10 +14,15 @@ import Glom.Model.C16
 
   so keys come in order of first occurrence, values in encounter order, SKIP drops
   an item; the leaves are their plain-Python references over the items routed to
-  them: `[f]` = the f-values (SKIP dropped, cut at STOP), First = the first item,
-  Max / Min = max / min, Avg = sum / len, Sum = sum, Count = len, Flatten =
-  chain.from_iterable, Merge = successive update, `Limit(n, sub)` = sub over the
-  first n items, a bare function = its value on the last item.
+  them: `[f]` = the f-values (SKIP dropped, cut at STOP), First = the first item
+  (None: there is none), Max / Min = max / min (None over nothing), Sum = the left fold
+  `reduce(operator.add, items, 0)`, Avg = the running float sum `s = 0.0; s += x` over
+  the count (None over nothing), Count = len, Flatten = chain.from_iterable, Merge =
+  successive update, `Limit(n, sub)` = sub over the first n items, a bare function / a
+  nested Group = its last value that is not SKIP (no such value: no entry).  The
+  reference (`refOf`, `valOfTop`) is defined on EVERY item list, the empty one included:
+  it does not know what glom returns for nothing (`emptyOf`), nor that glom omits a bucket
+  whose leaf says STOP at once — `implOf` / `implTop` is what the code computes.
 
   No accumulator tree, no id() keys, no STOP marks, no `done` flag.
 -/
@@ -32,7 +37,11 @@ def Fn.val (f : Fn) (x : V) : V :=
 
 /-! ### leaves -/
 
-def intOf (v : V) : Int := (asInt v).getD 0
+/-- `reduce(operator.add, values, 0)` (a value that cannot be added is left out: outside `wfRun`) -/
+def sumFold (vs : List V) : V := vs.foldl (fun acc v => (numAdd acc v).getD acc) (.int 0)
+
+/-- `s = 0.0; for x in items: s += x` as bits -/
+def fsum (its : List V) : UInt64 := its.foldl (fun a x => faddBits a ((toFBits x).getD 0)) 0
 
 /-- `max(items)` / `min(items)` as Python computes them: a left fold keeping the first extremum -/
 def pyMax : List V → V
@@ -51,8 +60,8 @@ def refAgg : Agg → List V → V
   | .first, its => its.head?.getD .none
   | .max, its => pyMax its
   | .min, its => pyMin its
-  | .avg, its => avgDiv ((its.map intOf).sum) its.length
-  | .sum f, its => .int ((its.map (fun x => intOf (f.val x))).sum)
+  | .avg, its => if its.isEmpty then .none else avgDiv (fsum its) its.length
+  | .sum f, its => sumFold (its.map f.val)
   | .count, its => .int its.length
   | .flatten f, its => .list (its.flatMap (fun x => (iterOf (f.val x)).getD []))
   | .merge f, its => .dict (its.foldl (fun es x => match f.val x with | .dict ps => dupdate es ps | _ => es) [])
@@ -91,6 +100,10 @@ def bhas : List (V × List V) → V → Bool
   | [], _ => false
   | (k', _) :: bs, k => keyEq k' k || bhas bs k
 
+/-- the items a hand-written loop routes to the bucket of key `k` -/
+def routed (key : Fn) (k : V) (its : List V) : List V :=
+  its.filter (fun x => !(isSkip (key.val x)) && keyEq (key.val x) k)
+
 /-! ### STOP events
 
   `stopsAt s its x`: a hand-written loop that has routed the items `its` to the spec `s`
@@ -103,7 +116,7 @@ def stopsAt : GSpec → List V → V → Bool
   | .fn f, _, x => isStop (f.val x)
   | .list _ f, _, x => isStop (f.val x)
   | .limit _ n sub, its, x => decide (n ≤ its.length) || stopsAt sub its x
-  | .nested _, _, _ => false
+  | .nested .., _, _ => false
   | .dict _ _ key sub, its, x =>
     isStop (key.val x) ||
       (!(isSkip (key.val x)) && stopsAt sub (bucketOf (buckets key its) (key.val x)) x)
@@ -139,10 +152,10 @@ def bucketHasVal (sub : GSpec) (b : V × List V) : Bool :=
   | x :: _ => hasVal sub x
   | [] => false
 
-/-- the value a spec denotes over the (non-empty) list of items routed to it.
-    `cut = false`: the property's reference.  `cut = true` differs in ONE place: a nested
-    Group evaluation ends at its first STOP event (what the code does, `implTop` below). -/
-def valOfC (cut : Bool) : GSpec → List V → V
+/-- **what the code computes** for a spec over the (non-empty, STOP-event-free) list of items
+    routed to it: `emptyOf` when a nested Group sees nothing, a bucket enters when its first result
+    is produced, `Limit(0)` yields nothing, a nested Group ends at its first STOP event -/
+def implOf : GSpec → List V → V
   | .agg _ a, its => refAgg a its
   | .fn f, its =>
     match (cutStop f its).getLast? with
@@ -150,28 +163,67 @@ def valOfC (cut : Bool) : GSpec → List V → V
     | none => .none
   | .list _ f, its =>
     .list ((cutStop f its).filterMap (fun x => if isSkip (f.val x) then none else some (f.val x)))
-  | .limit _ n sub, its => if n == 0 then .none else valOfC cut sub (its.take n)
-  | .nested g, its =>
+  | .limit _ n sub, its => if n == 0 then .none else implOf sub (its.take n)
+  | .nested _ g, its =>
     match its.getLast? with
-    | some x =>
-      emptyOr g (valOfC cut g) (if cut then cutEvent g ((iterOf x).getD []) else (iterOf x).getD [])
+    | some x => emptyOr g (implOf g) (cutEvent g ((iterOf x).getD []))
     | none => .none
   | .dict _ _ key sub, its =>
-    .dict (((bucketize key its).filter (bucketHasVal sub)).map (fun b => (b.1, valOfC cut sub b.2)))
+    .dict (((bucketize key its).filter (bucketHasVal sub)).map (fun b => (b.1, implOf sub b.2)))
 
-/-- the reference of the property: the hand-written loop -/
-abbrev valOf : GSpec → List V → V := valOfC false
+/-- `implOf` without the cut of nested runs (for `devClass` only: does the cut matter?) -/
+def implNoCut : GSpec → List V → V
+  | .agg _ a, its => refAgg a its
+  | .fn f, its =>
+    match (cutStop f its).getLast? with
+    | some x => f.val x
+    | none => .none
+  | .list _ f, its =>
+    .list ((cutStop f its).filterMap (fun x => if isSkip (f.val x) then none else some (f.val x)))
+  | .limit _ n sub, its => if n == 0 then .none else implNoCut sub (its.take n)
+  | .nested _ g, its =>
+    match its.getLast? with
+    | some x => emptyOr g (implNoCut g) ((iterOf x).getD [])
+    | none => .none
+  | .dict _ _ key sub, its =>
+    .dict (((bucketize key its).filter (bucketHasVal sub)).map (fun b => (b.1, implNoCut sub b.2)))
 
-/-- `glom(items, Group(g))` as a user would compute it; no item: the empty container
-    of the spec's type (None for a leaf) -/
-def valOfTop (g : GSpec) (items : List V) : V := emptyOr g (valOf g) items
+/-- the last value that is not SKIP (`.skip`: there is none) -/
+def lastNonSkip (vs : List V) : V := ((vs.filter (fun v => !(isSkip v))).getLast?).getD .skip
 
-/-- **what the code computes** (`c16_exact`): the hand-written loop over the items before the
-    first STOP event — a STOP from ANY bucket's leaf travels up through every enclosing
-    level to Group.glomit's `if ret is STOP: return last`, so it ends the WHOLE evaluation
-    (of the innermost enclosing Group).  The property holds on a run iff this equals
-    `valOfTop g items`. -/
-def implTop (g : GSpec) (items : List V) : V := emptyOr g (valOfC true g) (cutEvent g items)
+/-- no value (`.skip`) is None at the top -/
+def unskip : V → V
+  | .skip => .none
+  | v => v
+
+/-- **the reference of the property: the hand-written loop**, for EVERY list of items (also the
+    empty one).  `.skip` stands for "no value": such an entry is not in the dictionary.
+    (`cut`: nested Groups end at their first STOP event — used only to tell WHICH known
+    deviation a failing run shows; the property's reference is `cut = false`.) -/
+def refOfC (cut : Bool) : GSpec → List V → V
+  | .agg _ a, its => refAgg a its
+  | .fn f, its => if its.isEmpty then .none else lastNonSkip ((cutStop f its).map f.val)
+  | .list _ f, its =>
+    .list ((cutStop f its).filterMap (fun x => if isSkip (f.val x) then none else some (f.val x)))
+  | .limit _ n sub, its => refOfC cut sub (its.take n)
+  | .nested _ g, its =>
+    if its.isEmpty then .none
+    else lastNonSkip (its.map (fun x =>
+      unskip (refOfC cut g (if cut then cutEvent g ((iterOf x).getD []) else (iterOf x).getD []))))
+  | .dict _ _ key sub, its =>
+    .dict (((bucketize key its).map (fun b => (b.1, refOfC cut sub b.2))).filter (fun e => !(isSkip e.2)))
+
+abbrev refOf : GSpec → List V → V := refOfC false
+
+/-- `glom(items, Group(g))` as a user would compute it -/
+def valOfTop (g : GSpec) (items : List V) : V := unskip (refOf g items)
+
+/-- **what the code computes** (`c16_exact`): `implOf` over the items before the first STOP event
+    — a STOP from ANY bucket's leaf travels up through every enclosing level to Group.glomit's
+    `if ret is STOP: return last`, so it ends the WHOLE evaluation (of the innermost enclosing
+    Group) — and `emptyOf g` (an empty container / None) when nothing is left.  The property
+    holds on a run iff this equals `valOfTop g items`. -/
+def implTop (g : GSpec) (items : List V) : V := emptyOr g (implOf g) (cutEvent g items)
 
 /-! ### hypotheses (all decidable, evaluated by the driver on every case) -/
 
@@ -181,6 +233,8 @@ def applyOk (f : Fn) (x : V) : Bool :=
   | .error _ => false
 
 def isIntLike (v : V) : Bool := (asInt v).isSome
+/-- ints, bools, floats -/
+def isNum (v : V) : Bool := (toFBits v).isSome
 def isStr : V → Bool
   | .str _ => true
   | _ => false
@@ -197,57 +251,49 @@ def aggOk (a : Agg) (its : List V) : Bool :=
   | .first | .clsLast => its.all (fun x => !(isStop x) && !(isSkip x))    -- the items are not the sentinels themselves
   | .count | .clsCount | .sample .. => true
   | .unbound => its.isEmpty                                               -- every call raises TypeError
-  | .max | .min => its.all isIntLike || its.all isStr
-  | .avg => its.all isIntLike
-  | .sum f => its.all (fun x => applyOk f x && isIntLike (f.val x))
+  | .max | .min => its.all isNum || its.all isStr
+  | .avg => its.all isNum
+  | .sum f => its.all (fun x => applyOk f x && isNum (f.val x))
   | .flatten f => its.all (fun x => applyOk f x && (iterOf (f.val x)).isSome)
   | .merge f => its.all (fun x => applyOk f x && isDictV (f.val x))
 
 /-- **well-typed run**: no user function raises, keys are hashable scalars, aggregators
-    meet operands they can handle (a run in which Python raises is outside the property) -/
+    meet operands they can handle — PER BUCKET: each leaf is held against the items routed
+    to it (`{type: Max()}` over ints and strings is well-typed).  (A run in which Python raises
+    is outside the property.) -/
 def wfRun : GSpec → List V → Bool
   | .agg _ a, its => aggOk a its
   | .fn f, its => its.all (applyOk f)
   | .list _ f, its => its.all (applyOk f)
   | .limit _ _ sub, its => wfRun sub its
-  | .nested g, its => its.all (fun x => isSeqV x && wfRun g ((iterOf x).getD []))
-  | .dict _ _ key sub, its => its.all (fun x => applyOk key x && hashable (key.val x)) && wfRun sub its
-
-/-- **H1' (no STOP source)** — the hypothesis of the earlier form of the theorem, implied by
-    H1'' (`eventFree`) + `noSkipBelow`: no First, no Limit, no function that says STOP on one of
-    the items; below a key level a bare function / nested Group never yields SKIP either -/
-def stopFree (below : Bool) : GSpec → List V → Bool
-  | .agg _ .first, _ => false
-  | .agg _ _, _ => true
-  | .limit .., _ => false
-  | .fn f, its => its.all (fun x => !(isStop (f.val x)) && !(below && isSkip (f.val x)))
-  | .list _ f, its => its.all (fun x => !(isStop (f.val x)))
-  | .nested g, its =>
-    (match g with | .fn _ | .nested _ => !below | _ => true) &&
-    its.all (fun x => stopFree false g ((iterOf x).getD []))
-  | .dict _ _ key sub, its => its.all (fun x => !(isStop (key.val x))) && stopFree true sub its
+  | .nested _ g, its => its.all (fun x => isSeqV x && wfRun g ((iterOf x).getD []))
+  | .dict _ _ key sub, its =>
+    its.all (fun x => applyOk key x && hashable (key.val x)) &&
+    (buckets key its).all (fun b => wfRun sub b.2)
 
 /-- **SKIP below a key level**: a bare function / nested Group in value position under a key
     level does not yield SKIP (the code then orders the keys by first value, not by first
     occurrence: outside the reference) -/
 def canSkip : GSpec → Bool
   | .fn _ => true
-  | .nested g => canSkip g
+  | .nested _ g => canSkip g
   | .limit _ _ sub => canSkip sub
   | _ => false
 
 def noSkipBelow (below : Bool) : GSpec → List V → Bool
   | .fn f, its => !below || its.all (fun x => !(isSkip (f.val x)))
-  | .nested g, its =>
+  | .nested _ g, its =>
     (its.isEmpty || !(below && canSkip g)) && its.all (fun x => noSkipBelow false g ((iterOf x).getD []))
   | .dict _ _ _ sub, its => noSkipBelow true sub its
   | .limit _ _ sub, its => noSkipBelow below sub its
   | _, _ => true
 
-/-- no STOP event in the runs of nested Groups either (then `implTop` is the property's reference) -/
+/-- no STOP event in the runs of nested Groups either, and none of them sees nothing (then
+    `implTop` is the property's reference) -/
 def nestedFree : GSpec → List V → Bool
-  | .nested g, its =>
-    its.all (fun x => eventFree g ((iterOf x).getD []) && nestedFree g ((iterOf x).getD []))
+  | .nested _ g, its =>
+    its.all (fun x => eventFree g ((iterOf x).getD []) && !((iterOf x).getD []).isEmpty &&
+      nestedFree g ((iterOf x).getD []))
   | .dict _ _ _ sub, its => nestedFree sub its
   | .limit _ _ sub, its => nestedFree sub its
   | _, _ => true
@@ -259,7 +305,7 @@ def slotApart : GSpec → List V → Bool
   | .dict id _ key sub, its =>
     its.all (fun x => !(keyEq (idKey id) (key.val x))) && slotApart sub its
   | .limit _ _ sub, its => slotApart sub its
-  | .nested g, its => its.all (fun x => slotApart g ((iterOf x).getD []))
+  | .nested _ g, its => its.all (fun x => slotApart g ((iterOf x).getD []))
   | _, _ => true
 
 /-- **H2 (one namespace, no collision)**: no bucket key equals `id()` of its own spec dict
@@ -268,15 +314,15 @@ def keysApart : GSpec → List V → Bool
   | .dict id kid key sub, its =>
     its.all (fun x => !(keyEq (idKey id) (key.val x)) && !(keyEq (.obj kid) (key.val x))) && keysApart sub its
   | .limit _ _ sub, its => keysApart sub its
-  | .nested g, its => its.all (fun x => keysApart g ((iterOf x).getD []))
+  | .nested _ g, its => its.all (fun x => keysApart g ((iterOf x).getD []))
   | _, _ => true
 
-/-- the runs on which the code does what the property says: H2', no SKIP leaf below a key
-    level, and cutting the run at the first STOP event makes no difference to the
-    hand-written loop (no event at all; a top-level First / Limit(n); an event under a key
-    level that holds a single bucket, …) -/
+/-- the runs on which the code does what the property says: H2', no SKIP from a bare function /
+    nested Group in value position, and `implTop` IS the hand-written loop's result (no STOP event
+    that matters, nothing evaluated over no items unless an empty container / None is what the
+    loop gives, no bucket whose leaf says STOP at once) -/
 def covered (g : GSpec) (its : List V) : Bool :=
-  slotApart g its && noSkipBelow false g its && veq (implTop g its) (valOfTop g its)
+  slotApart g its && noSkipBelow true g its && veq (implTop g its) (valOfTop g its)
 
 /-! ### the shapes of the two known defects (for classification only) -/
 
@@ -289,15 +335,32 @@ def hasStopSource : GSpec → List V → Bool
   | .limit .., _ => true
   | .fn f, its => its.any (fun x => isStop (f.val x))
   | .list _ f, its => its.any (fun x => isStop (f.val x))
-  | .nested _, _ => false
+  | .nested .., _ => false
   | .dict _ _ key sub, its => its.any (fun x => isStop (key.val x)) || hasStopSource sub its
 
 /-- F9: a STOP source under a key level whose key takes more than one value -/
 def f9Shape : GSpec → List V → Bool
   | .dict _ _ key sub, its => (distinctKeys key its > 1 && hasStopSource sub its) || f9Shape sub its
   | .limit _ _ sub, its => f9Shape sub its
-  | .nested g, its => its.any (fun x => f9Shape g ((iterOf x).getD []))
+  | .nested _ g, its => its.any (fun x => f9Shape g ((iterOf x).getD []))
   | _, _ => false
+
+/-- WHICH known deviation from the hand-written loop a failing evaluation shows (the classifier of
+    KNOWN_FINDINGS.txt; "" = none of them).  Evaluated on the failing evaluation itself:
+    * `tree_key_collision` (F10): a bucket key equals id() of its spec dict;
+    * `first_under_varying_key` (F9): cutting the run (or a nested run) at the first STOP event
+      changes what the code's own per-bucket rules give (`implNoCut`: a STOP that ended only its
+      bucket);
+    * `skip_below_key_level`: a bare function / nested Group in value position yields SKIP;
+    * `empty_or_limit0`: what is left — the result is `implTop`, which differs from the loop only by
+      `emptyOf` over no items, `Limit(0)`, and buckets whose leaf says STOP at once. -/
+def devClass (g : GSpec) (its : List V) (res : V) : String :=
+  if !(slotApart g its) then "tree_key_collision"
+  else if !(veq (emptyOr g (implNoCut g) (cutEvent g its)) (emptyOr g (implNoCut g) its)) ||
+      !(veq (emptyOr g (implNoCut g) its) (emptyOr g (implOf g) its)) then "first_under_varying_key"
+  else if !(noSkipBelow true g its) then "skip_below_key_level"
+  else if veq res (implTop g its) then "empty_or_limit0"
+  else ""
 
 /-! ### observation and checker -/
 
